@@ -123,7 +123,9 @@ def sort_set_values(set_values):
     is_sorted = False
     try:
         set_values = sorted(set_values)
-        is_sorted = True
+        # `<` can be a partial order (like for frozensets),
+        # the result of sorted() depends on the order of the set (the hash seed) in this case
+        is_sorted = all(a < b for a, b in zip(set_values, set_values[1:]))
     except TypeError:
         pass
 
